@@ -79,3 +79,12 @@ Proof.
     lia.
   - apply nth_error_None in E. lia.
 Qed.
+
+(* a group without any selected row keeps the initial accumulator and a zero count *)
+Theorem unobserved_group_cell {V} (o : ops V) r ng (rows : list (Z * V)) g :
+  (g < ng)%nat -> rows_of g rows = [] ->
+  get (null o) (fst (P o r ng rows)) g = initial_value o r /\ get 0 (snd (P o r ng rows)) g = 0.
+Proof.
+  intros Hg Hn. pose proof (P_group o r ng rows g Hg) as E. rewrite Hn in E.
+  unfold series in E. simpl in E. injection E as H1 H2. split; assumption.
+Qed.
